@@ -202,16 +202,23 @@ static Outcome ShapesLeg(RunCtx& ctx, int archive)
 		item.items = { I32(v.back().first), Str(v.back().second) };
 		vt.items.push_back(item);
 	}
-	root.keys = { key("tup"), key("arr"), key("vt"), key("tail") };
+	// a bitset and a vector<bool>: all elements true, so that an element that is not loaded cannot pass for its neighbour's value
+	DynNode bits(K::Arr), vb(K::Arr);
+	for (int i = 0; i < 6; ++i) bits.items.push_back(Bool(true));
+	const uint32_t nvb = 2 + s.draw(sim::L_DOC, 6);
+	for (uint32_t i = 0; i < nvb; ++i) vb.items.push_back(Bool(true));
+	root.keys = { key("tup"), key("arr"), key("vt"), key("bits"), key("vb"), key("tail") };
 	const int32_t tail = 1 + static_cast<int32_t>(s.draw(sim::L_DOC, 1000));
-	root.items = { tup, arr, vt, I32(tail) };
+	root.items = { tup, arr, vt, bits, vb, I32(tail) };
 	// the offence
-	const uint32_t where = s.draw(sim::L_FAULT, 3);     // 0 tuple, 1 array, 2 an item of the vector of tuples
+	const uint32_t where = s.draw(sim::L_FAULT, 5);     // 0 tuple, 1 array, 2 an item of the vector of tuples, 3 bitset, 4 vector<bool>
 	uint32_t idx = 0;
 	std::string what;
 	if (where == 0) { idx = s.draw(sim::L_FAULT, 4); root.items[0].items[idx] = idx == 1 ? (archive == A_XML ? DynNode(K::Null) : I32(7)) : Str("x!"); what = "tup[" + std::to_string(idx) + "]"; }
 	else if (where == 1) { idx = s.draw(sim::L_FAULT, 4); root.items[1].items[idx] = Str("x!"); what = "arr[" + std::to_string(idx) + "]"; }
-	else { idx = s.draw(sim::L_FAULT, nvt); root.items[2].items[idx].items[0] = Str("x!"); what = "vt[" + std::to_string(idx) + "][0]"; }
+	else if (where == 2) { idx = s.draw(sim::L_FAULT, nvt); root.items[2].items[idx].items[0] = Str("x!"); what = "vt[" + std::to_string(idx) + "][0]"; }
+	else if (where == 3) { idx = s.draw(sim::L_FAULT, 6); root.items[3].items[idx] = Str("x!"); what = "bits[" + std::to_string(idx) + "]"; }
+	else { idx = s.draw(sim::L_FAULT, nvb); root.items[4].items[idx] = Str("x!"); what = "vb[" + std::to_string(idx) + "]"; }
 	const bool xmlStringOffence = archive == A_XML && where == 0 && idx == 1;   // XML: null in place of a text is "not loaded" as well
 	(void)xmlStringOffence;
 	std::string bytes;
@@ -226,6 +233,8 @@ static Outcome ShapesLeg(RunCtx& ctx, int archive)
 	sh.arr = { 0x55555555, 0x55555555, 0x55555555, 0x55555555 };
 	sh.vt.assign(1 + s.draw(sim::L_PROG, 4), std::make_tuple(0x55555555, std::string("\x01marker")));
 	sh.tail = 0x55555555;
+	sh.bits.reset();                   // every bit false before the load
+	sh.vb.assign(1 + s.draw(sim::L_PROG, 4), true);
 	ApplyKnobs(c);
 	CallResult r;
 	sim::steps_begin(3000ull * (bytes.size() + 4096));
@@ -238,7 +247,7 @@ static Outcome ShapesLeg(RunCtx& ctx, int archive)
 	}
 	sim::steps_end();
 	ResetKnobs();
-	const std::string tags = "archive=" + an + " leg=shapes entry=" + (c.stream ? "stream:file" : "mem") + " offence=" + (where == 0 ? "tuple" : where == 1 ? "array" : "vector_of_tuples");
+	const std::string tags = "archive=" + an + " leg=shapes entry=" + (c.stream ? "stream:file" : "mem") + " offence=" + (where == 0 ? "tuple" : where == 1 ? "array" : where == 2 ? "vector_of_tuples" : where == 3 ? "bitset" : "vector_bool");
 	if (!r.isStd) return Violation("WRONG_EXCEPTION", tags, "non-std exception");
 	if (!r.ok) return Violation("WRONG_EXCEPTION", tags + " what=threw exc=" + r.cat, "with the Skip policies the load must not throw for " + what + ": " + r.cat + " (" + r.what + ")");
 	auto fail = [&](const std::string& w, const std::string& d) { return Violation("WRONG_VALUE", tags + " what=" + w, "offence at " + what + ": " + d); };
@@ -260,6 +269,19 @@ static Outcome ShapesLeg(RunCtx& ctx, int archive)
 		// items of a sequence container are new values: the offended component is a default, not the marker
 		if (std::get<0>(sh.vt[i]) != (off ? 0 : v[i].first)) return fail(off ? "offended_changed" : "neighbour_value", "vt[" + std::to_string(i) + "][0] = " + std::to_string(std::get<0>(sh.vt[i])));
 		if (std::get<1>(sh.vt[i]) != v[i].second) return fail("neighbour_value", "vt[" + std::to_string(i) + "][1] = " + sim::hex(std::get<1>(sh.vt[i]), 40));
+	}
+	for (uint32_t i = 0; i < 6; ++i)
+	{
+		const bool off = where == 3 && idx == i;
+		// a bit is a field: the offended one keeps its value (false), it does not take its neighbour's
+		if (sh.bits.test(i) != !off) return fail(off ? "offended_changed" : "neighbour_value", "bits[" + std::to_string(i) + "] = " + (sh.bits.test(i) ? "1" : "0"));
+	}
+	if (sh.vb.size() != nvb) return fail("neighbour_count", "vb has " + std::to_string(sh.vb.size()) + " items, the document " + std::to_string(nvb));
+	for (uint32_t i = 0; i < nvb; ++i)
+	{
+		const bool off = where == 4 && idx == i;
+		// an item of a sequence container is a new value: the offended one is false, not its neighbour's value
+		if (sh.vb[i] != !off) return fail(off ? "offended_changed" : "neighbour_value", "vb[" + std::to_string(i) + "] = " + (sh.vb[i] ? "1" : "0"));
 	}
 	out.nontrivial = true;
 	sim::probe("fixed-shape-offence-skipped");
